@@ -2,6 +2,7 @@ package kit
 
 import (
 	"fmt"
+	"math"
 	"sort"
 
 	"pgregory.net/rapid"
@@ -226,6 +227,19 @@ func genBase(t *rapid.T, p Profile, tables []string, mapKey, mapVal bool, shape 
 			if rapid.Bool().Draw(t, "maxReal?") {
 				v := float64(rapid.IntRange(1, 1000).Draw(t, "maxReal")) / 4
 				b.MaxReal = &v
+			}
+			if p.WideBounds && rapid.IntRange(0, 3).Draw(t, "extremeReal") == 0 {
+				// a schema may spell out the whole range of a double
+				lo, hi := -math.MaxFloat64, math.MaxFloat64
+				switch rapid.IntRange(0, 2).Draw(t, "extremeRealSide") {
+				case 0:
+					b.MinReal = &lo
+				case 1:
+					b.MaxReal = &hi
+				default:
+					b.MinReal, b.MaxReal = &lo, &hi
+				}
+				Label("generator", "schema:real-bound-at-the-end-of-the-range")
 			}
 		case TStr:
 			b.MinLength = i64("minLength", 0, 2)
